@@ -157,9 +157,44 @@ def last_open_case(wd):
     return None
 
 
+def race_reports(wd):
+    import glob
+    texts = []
+    for f in sorted(glob.glob(os.path.join(wd, "race.*")) + glob.glob(os.path.join(wd, "race"))):
+        try:
+            texts.append(open(f, errors="replace").read())
+        except Exception:
+            pass
+    return "\n".join(texts)
+
+
 def triage(pid, res, replay_dir):
     """-> (kind, info) kind in pass|violation|inconclusive"""
     out = res["out"]
+    races = race_reports(res["wd"])
+    if "DATA RACE" in races:
+        frames = [f for f in re.findall(r"^\s+(/repo/\S+\.go):\d+", races, re.M) if "_test.go" not in f]
+        if frames:
+            # identity of the finding: the pair of top repository frames of the first report
+            first = races.split("WARNING: DATA RACE")[1]
+            tops = []
+            for block in re.split(r"\n\s*\n", first):
+                m = re.findall(r"^\s+(\S+)\(\)\n\s+(/repo/\S+\.go:\d+)", block, re.M)
+                m = [x for x in m if "_test.go" not in x[1]]
+                if m:
+                    tops.append("%s %s" % m[0])
+                if len(tops) == 2:
+                    break
+            case = last_open_case(res["wd"])
+            os.makedirs(replay_dir, exist_ok=True)
+            key = hashlib.sha1("|".join(sorted(tops)).encode()).hexdigest()[:12]
+            path = os.path.join(replay_dir, "%s-%s-race-%s.json" % (pid, res["test"], key))
+            with open(path, "w") as f:
+                json.dump({"property": pid, "test": res["test"], "symptom": "data-race",
+                           "detail": "race detector report with engine frames: " + " <-> ".join(tops),
+                           "descriptor": (case or {}).get("desc"), "report": first[:6000]}, f, indent=1)
+            return "violation", {"replay": path, "symptom": "data-race", "test": res["test"]}
+        return "inconclusive", {"why": "data race reported inside the harness only (harness bug)", "tail": races[:3000]}
     fails = FAIL_RE.findall(out)
     if fails:
         prop, test, symptom, path = fails[-1]
